@@ -4,6 +4,14 @@ import json, os
 ROOT = os.path.dirname(os.path.dirname(os.path.abspath(__file__)))
 props = [json.loads(l)["id"] for l in open(os.path.join(ROOT, "properties.jsonl"))]
 na = json.load(open(os.path.join(ROOT, "tools", "not_applicable.json")))
+import re
+open_findings = set()
+kf = os.path.join(ROOT, "known_findings.txt")
+if os.path.exists(kf):
+    for l in open(kf):
+        m = re.match(r"finding:\s+property=(C\d+)", l)
+        if m:
+            open_findings.add(m.group(1))
 checks = []
 for pid in props:
     cj = os.path.join(ROOT, "specs", pid, "check.json")
@@ -19,7 +27,7 @@ for pid in props:
         "evidence_file": "/verif/evidence/%s.json" % pid,
         "replay_cmd_template": "cat {path}",
         "engine": "vf",
-        "level_claimed": {"category": c.get("level", "proof"), "text": c["level_text"], "design_ref": c.get("design_ref", "DESIGN.md section 4")},
+        "level_claimed": {"category": ("other" if pid in open_findings else c.get("level", "proof")), "text": c["level_text"] + (" NOTE: open known finding(s) recorded for this property: the check is not a proof record while they stay open." if pid in open_findings else ""), "design_ref": c.get("design_ref", "DESIGN.md section 4")},
         "level_note": c["level_note"],
         "technique": c.get("technique", "CBMC code contracts (goto-instrument --dfcc) on C extracted from the real C++ by clang-AST translation"),
     })
